@@ -405,6 +405,22 @@ def run_cache_key(P, rep, rule="R-CACHEKEY"):
             else:
                 rep.ok(rule, site, P.where(fn, t["line"]), "insert(name.to_string(), result): key is a plain copy of the requested name")
             _cache_value_is_returned(P, rep, fn, bi, t, site, rule)
+            # what is remembered under a name is the outcome of compiling that partial's source, nothing else (not a miss,
+            # not a placeholder): a remembered miss makes a later failing lookup answer differently from a fresh store
+            vl2 = op_local(t["args"][2]) if len(t["args"]) > 2 else None
+            if vl2:
+                _, vcalls = backward_slice(fn, vl2[0])
+                def _parses(fid, depth=2):
+                    if fid.endswith("parser::parser::parse"):
+                        return True
+                    g = P.fns.get(fid)
+                    if g is None or depth <= 0:
+                        return False
+                    return any(t2.get("f") and _parses(t2["f"]["id"], depth - 1) for b2, t2 in P.calls(g))
+                if not any(c.get("f") and _parses(c["f"]["id"]) for c in vcalls):
+                    rep.viol(rule, site.replace("insert#", "insert-source#"), P.where(fn, t["line"]),
+                             "a value that does not come from parser::parse (a remembered miss / placeholder) is written to the partial cache: later lookups of "
+                             "that name answer from the cache instead of asking the source")
     rep.analysed[rule + ".writes"] = n
 
 
